@@ -57,7 +57,7 @@ def walk(sim):
     out_leaves = []
     problems = []
     if not sim._tree_root:
-        return out_leaves, problems
+        return out_leaves, problems, []
     nroot = sim.N_root
     roots = (ctypes.c_void_p * nroot).from_address(sim._tree_root)
 
@@ -109,19 +109,27 @@ class Case:
             sim.N_ghost_x = sim.N_ghost_y = 1
         sim.integrator = "leapfrog"
         sim.dt = DT
-        if module == "treegrav":
-            sim.gravity = "tree"
-            sim.G = 1e-30          # forces negligible: trajectories stay ballistic, bookkeeping is what is under test
-            sim.opening_angle2 = 0.25
+        def select_module():
+            if module == "treegrav":
+                sim.gravity = "tree"
+                sim.G = 1e-30          # forces negligible: trajectories stay ballistic, bookkeeping is what is under test
+                sim.opening_angle2 = 0.25
+            else:
+                sim.gravity = "none"
+            if module in ("treecol", "linecol"):
+                sim.collision = "tree" if module == "treecol" else "linetree"
+                sim.collision_resolve = "hardsphere"
+        late = cfg.get("late", False)       # the tree-based module is chosen only after the particles have been added
+        if not late:
+            select_module()
         else:
             sim.gravity = "none"
-        if module == "treecol":
-            sim.collision = "tree"
-            sim.collision_resolve = "hardsphere"
         alpha, L = alphabet(layout)
         for k, idx in enumerate(cfg["parts"]):
             (p, v) = alpha[idx]
             sim.add(m=1.0 + 0.25 * k, x=p[0], y=p[1], z=p[2], vx=v[0], vy=v[1], vz=v[2], r=1e-6, hash=100 + k)
+        if late:
+            select_module()
         return sim, L
 
     def snapshot(self, sim):
@@ -131,7 +139,7 @@ class Case:
         return abs(x) <= L[0] / 2 and abs(y) <= L[1] / 2 and abs(z) <= L[2] / 2
 
     def check_tree(self, sim, cfg, V, where, gravdata):
-        tag = "%s/%s/%s parts=%s" % (cfg["boundary"], cfg["layout"], cfg["module"], cfg["parts"])
+        tag = "%s/%s/%s%s parts=%s" % (cfg["boundary"], cfg["layout"], cfg["module"], "(selected after adding the particles)" if cfg.get("late") else "", cfg["parts"])
         if cfg["module"] == "none":
             return
         try:
@@ -176,7 +184,7 @@ class Case:
         rebound = self.rebound
         cl = self.cl
         V = []
-        tag = "%s/%s/%s parts=%s" % (cfg["boundary"], cfg["layout"], cfg["module"], cfg["parts"])
+        tag = "%s/%s/%s%s parts=%s" % (cfg["boundary"], cfg["layout"], cfg["module"], "(selected after adding the particles)" if cfg.get("late") else "", cfg["parts"])
         try:
             sim, L = self.build(cfg)
         except RuntimeError as e:
@@ -270,6 +278,13 @@ class Case:
                     sim.add(m=0.5, x=q[0], y=q[1], z=q[2], vx=v[0], vy=v[1], vz=v[2], r=1e-6, hash=500 + nadd)
                 except RuntimeError:
                     pass
+            elif op == "reload":
+                # a copy goes through the same reader as a restart from a file: it has to come back with a complete tree
+                sim = sim.copy()
+                after = self.snapshot(sim)
+                if after != before:
+                    V.append(("reload:particles-differ", "the copy holds different particles after %s [%s]" % (where, tag)))
+                    break
             elif op == "com":
                 try:
                     sim.move_to_com()
@@ -286,7 +301,7 @@ class Case:
                 break
             # structural invariants of the tree after every operation that ends with an up-to-date tree
             # (move_to_com runs the boundary check and the tree update itself)
-            if cfg["module"] != "none" and op in ("step", "com"):
+            if cfg["module"] != "none" and op in ("step", "com", "reload"):
                 if cfg["module"] == "treegrav":
                     cl.reb_simulation_update_tree(ctypes.byref(sim))
                     cl.reb_simulation_update_tree_gravity_data(ctypes.byref(sim))
@@ -298,7 +313,7 @@ class Case:
 
 
 def histories(depth):
-    ops = ["step", "remove", "add", "com"]
+    ops = ["step", "remove", "add", "com", "reload"]
     out = []
     for d in range(1, depth + 1):
         for h in itertools.product(ops, repeat=d):
@@ -316,7 +331,7 @@ def run(ctx):
     nalpha = len(alphabet("1x1x1")[0])
     for boundary in ("open", "periodic", "shear"):
         for layout in LAYOUTS:
-            for module in ("treegrav", "treecol", "none"):
+            for module in ("treegrav", "treecol", "linecol", "none"):
                 parts = []
                 for n in ((1, 2) if ctx.tier == "quick" else (1, 2, 3)):
                     parts += list(itertools.combinations(range(nalpha), n))
@@ -326,6 +341,12 @@ def run(ctx):
                     cfg = {"boundary": boundary, "layout": layout, "module": module, "parts": list(pc)}
                     for h in H:
                         tasks.append((cfg, h))
+                if module != "none":
+                    for pc in [c for c in itertools.combinations(range(nalpha), 2) if sum(c) % 3 == 0]:
+                        cfg = {"boundary": boundary, "layout": layout, "module": module, "parts": list(pc), "late": True}
+                        for h in H:
+                            if h[0] in ("step", "com"):      # the first operation that brings the tree up to date
+                                tasks.append((cfg, h))
     tasks = ctx.shuffled(tasks)
     ctx.note("cases: %d" % len(tasks))
     res = pool.run_tasks(Case(rebound), tasks, timeout=60, chunk=256, progress=lambda d, n: ctx.note("cases %d/%d" % (d, n)))
